@@ -382,11 +382,13 @@ func (p *parser) expressionLoop(node Node, prec int) (Node, error) {
 					return nil, err
 				}
 
-				if right != nil {
-					node = &ProjectArrayNode{
-						Left:  node,
-						Right: right,
-					}
+				if right == nil {
+					right = CurrentNode{}
+				}
+
+				node = &ProjectArrayNode{
+					Left:  node,
+					Right: right,
 				}
 			}
 		case lexer.OrToken:
@@ -1791,11 +1793,13 @@ func (p *parser) primaryExpression() (Node, error) {
 					return nil, err
 				}
 
-				if right != nil {
-					node = &ProjectArrayNode{
-						Left:  node,
-						Right: right,
-					}
+				if right == nil {
+					right = CurrentNode{}
+				}
+
+				node = &ProjectArrayNode{
+					Left:  node,
+					Right: right,
 				}
 			}
 		} else {
@@ -1961,11 +1965,13 @@ func (p *parser) projection(prec int) (Node, error) {
 				return nil, err
 			}
 
-			if right != nil {
-				node = &ProjectArrayNode{
-					Left:  node,
-					Right: right,
-				}
+			if right == nil {
+				right = CurrentNode{}
+			}
+
+			node = &ProjectArrayNode{
+				Left:  node,
+				Right: right,
 			}
 		}
 	default:
